@@ -222,7 +222,7 @@ class RpcServer(PduPeer):
         if not ok:
             self._fault(conn, ERROR_ACCESS_DENIED, call_id=pdu["call_id"])
             return
-        flags = rpce.PFC_FIRST | rpce.PFC_LAST
+        flags = rpce.PFC_FIRST | rpce.PFC_LAST | int(self.knobs.get("alter_resp_extra_flags", 0))
         if st.header_sign:
             flags |= rpce.PFC_HDR_SIGN
         conn.peer_send(self.codec.build_bind_ack(results, ptype=rpce.ALTER_CONTEXT_RESP, flags=flags, sec_addr="", auth=auth,
@@ -269,7 +269,12 @@ class RpcServer(PduPeer):
 
     def send_response(self, conn, st, stub: bytes, ctx_id: int, call_id: int, seal: bool) -> None:
         if not seal:
-            conn.peer_send(self.codec.build_response(stub, ctx_id=ctx_id, call_id=call_id))
+            hint = self.knobs.get("alloc_hint_unsealed")  # advisory field: None = len(stub); int k = len(stub) - k (at least 1); "zero"
+            if hint is None:
+                conn.peer_send(self.codec.build_response(stub, ctx_id=ctx_id, call_id=call_id))
+            else:
+                ah = 0 if hint == "zero" else max(1, len(stub) - int(hint))
+                conn.peer_send(self.codec.build_response(stub, ctx_id=ctx_id, call_id=call_id, alloc_hint=ah))
             return
         mode = self.knobs.get("pad_mode", "min16")
         if mode == "min16":
